@@ -36,6 +36,18 @@ Proof. reflexivity. Qed.
 
 Theorem x_fiemap_unsupported_ok : x_fiemap_unsupported_errnos = [EOPNOTSUPP].
 Proof. reflexivity. Qed.
+(* ---- FiemapReq::new: every request (the first, and each later page, whose start only moves forward) asks the kernel for
+   the WHOLE rest of the file: no offset a file can have (< 2^63, the largest loff_t) lies beyond start + length, and no
+   flag restricts what is reported ---- *)
+Theorem x_fiemap_request_covers_the_rest_of_the_file : forall start off,
+  x_fiemap_req_start <= start -> start <= off -> off < 2 ^ 63 -> off < start + x_fiemap_req_length.
+Proof.
+  intros start off H0 H1 H2. unfold x_fiemap_req_length.
+  assert (2 ^ 63 <= 18446744073709551615) by (vm_compute; discriminate). lia.
+Qed.
+Theorem x_fiemap_request_starts_at_zero_unflagged : x_fiemap_req_start = 0 /\ x_fiemap_req_flags = 0.
+Proof. split; reflexivity. Qed.
+
 Theorem x_fiemap_page_size_ok : x_fiemap_page_size = N.of_nat FIEMAP_PAGE_SIZE.
 Proof. reflexivity. Qed.
 
